@@ -52,6 +52,11 @@ func (output *Output) interpolateParameters(interpolator ParametersInterpolator)
 	}
 
 	for _, outputLanguage := range output.Languages {
+		// a null list element in the configuration; reported by OutputLanguages()
+		if outputLanguage == nil {
+			continue
+		}
+
 		outputLanguage.interpolateParameters(output, interpolator)
 	}
 }
